@@ -14,6 +14,11 @@ cross-unit fix-ups; meaning = what read::Dwarf must report).
     replay case with the expected read-back forest (and the expected .debug_info
     bytes) or the expected error.  gvh-unitw performs the calls on gimli, writes,
     reads back with read::Dwarf and prints the forest.
+ V: gvh-unitw records random larger unit tables (1-4 units, 50-200 entries, random
+    attribute kinds, references, reserved ids, sibling flags, delete / delete_child;
+    Dwarf::write or incremental) as builder calls + read-back forest; UnitWriterTrace.tla
+    replays the calls on the builder machine and demands the read-back to be the
+    meaning the spec computes (or an error where the spec says so).
 """
 import json, os
 from vlib import read_ndjson, write_ndjson, canon, ToolError
@@ -193,6 +198,37 @@ def run(ctx):
                         ctx.sample({"calls": case["calls"][-3:], "units": case["units"],
                                     "exp": (case["exp"]["units"][0]["entries"][:2] if case["exp"]["ok"] else case["exp"]),
                                     "obs_ok": (obs.get(i) or {}).get("ok")})
+    # ---------------------------------------------------------------- V
+    ntab, lo, hi = (3, 50, 120) if q else (12, 50, 200)
+    tr = ctx.record(bins[0][1], "tables.ndjson", ["--seed", ctx.seed, "--n", ntab, "--min", lo, "--max", hi])
+    groups = []
+    for ev in read_ndjson(tr):
+        if ev["ev"] == "Units" or not groups:
+            groups.append([])
+        groups[-1].append(ev)
+    for gi, g in enumerate(groups):
+        pth = os.path.join(ctx.work, "table-%d.ndjson" % gi)
+        write_ndjson(pth, g)
+        ok, info = ctx.validate_trace("UnitWriterTrace", pth)
+        if ok:
+            ctx.cov["traces_validated_against_impl"] += len(g)
+            continue
+        um = info.get("unmatched")
+        if not um:
+            raise ToolError("trace validation failed without an unmatched event: %s" % info.get("error"))
+        idx_s, js = um.split(", ", 1)
+        ev = json.loads(json.loads(js))
+        ctx.cov["traces_validated_against_impl"] += int(idx_s) - 1
+        if ev.get("ev") == "Result":
+            o = ev.get("obs", {})
+            sig = "unitw-trace:Result:%s:%s" % ("ok" if o.get("ok") else "%s:%s" % (o.get("stage"), o.get("err")), ev.get("mode"))
+            what = ("table %d (%d calls): the read-back forest / outcome is not what UnitWriter.tla computes for the recorded calls; outcome %s"
+                    % (gi, len(g) - 2, json.dumps({k: o.get(k) for k in ("ok", "stage", "err", "loc", "msg")})))
+        else:
+            sig = "unitw-trace:%s" % ev.get("ev")
+            what = "table %d: event not explainable by the builder machine: %s" % (gi, json.dumps(ev)[:400])
+        ctx.violation(sig, what, {"trace_group": g[:1] + [{"n_calls": len(g) - 2}], "seed": ctx.seed, "table": gi}, ev if ev.get("ev") != "Result" else {"obs_head": str(ev)[:600]})
+
     all_kinds = ["Address", "Block", "Data1", "Data2", "Data4", "Data8", "Data16", "Sdata", "Udata", "ImplicitConst", "Exprloc",
                  "Flag", "FlagPresent", "UnitRef", "DebugInfoRef", "DebugInfoRefSup", "LineProgramRef", "LocationListRef",
                  "DebugMacinfoRef", "DebugMacroRef", "RangeListRef", "DebugTypesRef", "StringRef", "DebugStrRefSup",
@@ -210,6 +246,6 @@ def run(ctx):
     ]
     ctx.finish("model_checking",
                rule="one case per builder script explored by TLC; non-trivial = the script must be written and read back as the modelled forest, "
-                    "or references an id without slot; scripts expected to fail are counted separately",
+                    "or references an id without slot; scripts expected to fail are counted separately; trace events (builder calls of random tables) validated one by one by UnitWriterTrace",
                exhaustive=True,
                extra_cov={"expected_errors": stats["exp_err"], "forests_equal": stats["same"], "debug_info_bytes_equal": stats["bytes_equal"]})
